@@ -1,61 +1,39 @@
-(* C02/Proofs5.v — the refutations: concrete runs of the faithful model (findings F3 and S1). *)
+(* C02/Proofs5.v — concrete runs of the model: regression witnesses of the repaired findings (F3, S1, faulty waiter). *)
 From Verif Require Import Common.Base C02.Model C02.Proofs.
 Local Open Scope Z_scope.
 
 Definition final (c : cfg) (ls : list label) : st :=
   match run c init ls with Some s => s | None => init end.
 
-(* ---- F3: the context-aware condition variable dead-locks the queue ---------------------------------
-   capacity 3, block_on_overflow, either queue kind.  Three requests of size 1 are accepted, two of them
-   are handed to consumers; two more producers (3 and 4, size 1 each — they FIT the capacity) block; both
-   contexts end and both leave the select on ctx.Done(); before either re-acquires the mutex the two
-   consumers call OnDone.  The first Signal puts a token into the 1-slot channel, the second Signal blocks
-   on it WITH THE MUTEX HELD.  Request 2 is still queued and can never be handed over. *)
+(* ---- REPAIRED finding F3 (fix a6d2b6d09): the former deadlock schedule, replayed on the repaired code -------------
+   capacity 3, block_on_overflow, either queue kind.  Three requests of size 1 are accepted, two of them are handed to
+   consumers; producers 3 and 4 block; both contexts end and both leave the select on ctx.Done(); before either
+   re-acquires the mutex the two consumers call OnDone.  Both Signals now complete at once (two wake-ups counted, the
+   bell rung once); the two cancelled producers get the mutex, take back the wake-ups that were meant for them and
+   return their context error; request 2 is handed over and finished.  Nobody is stuck; a stale bell is all that
+   remains. *)
 Definition f3_cfg (k : qkind) : cfg := {| kind := k; cap := 3; blocking := true; wfr := false |}.
 Definition f3_trace : list label :=
   [LOffer 0 1; LOffer 1 1; LOffer 2 1; LRead; LRead; LOffer 3 1; LOffer 4 1; LCancel 3; LCancel 4;
-   LSelCtx 3; LSelCtx 4; LDone 0 0; LDone 1 0].
+   LSelCtx 3; LSelCtx 4; LDone 0 0; LDone 1 0; LRelockCtx 3; LRelockCtx 4; LRead; LDone 2 0].
 
-Lemma f3_quiescent k : quiescent (f3_cfg k) (final (f3_cfg k) f3_trace).
+Lemma f3_schedule_completes_l : forall k,
+  let c := f3_cfg k in let s := final c f3_trace in
+  run c init f3_trace = Some s /\ reachable c s /\ quiescent c s /\ all_returned s /\
+  pget 3%nat (prods s) = Some (PRet RCtx) /\ pget 4%nat (prods s) = Some (PRet RCtx) /\
+  hand s = [0; 1; 2]%nat /\ size s = 0 /\ waiting s = 0 /\ sigs s = 0 /\ tok s = true.
 Proof.
-  intros l Hi. destruct k; destruct l; try discriminate Hi; try reflexivity;
-    try (destruct p as [|[|[|[|[|p]]]]]; reflexivity).
-Qed.
-
-Lemma f3_reachable_fit k : reachable_fit (f3_cfg k) (final (f3_cfg k) f3_trace).
-Proof.
-  exists f3_trace. split.
-  - unfold f3_trace. repeat constructor; simpl; intros; lia.
-  - destruct k; vm_compute; reflexivity.
-Qed.
-
-Lemma no_lost_wakeup_refuted_l :
-  forall k, exists c s,
-    kind c = k /\ 0 < cap c /\ reachable_fit c s /\ quiescent c s /\
-    size s = 1 /\ items s = [(2%nat, 1)] /\ inflight s = [] /\
-    lock s = BSend PendNone /\ tok s = true /\ waiting s = 0 /\
-    (forall p, p = 3%nat \/ p = 4%nat ->
-       In p (cancelled s) /\ pget p (prods s) = Some (PLeftCtx 1)) /\
-    ~ all_returned s /\
-    (* the queue is dead for everybody: no later Offer, Read, OnDone or Shutdown can even start *)
-    (forall p sz, step c s (LOffer p sz) = None) /\ step c s LRead = None /\ step c s LShutdown = None.
-Proof.
-  intros k. exists (f3_cfg k), (final (f3_cfg k) f3_trace).
-  split; [reflexivity|]. split; [simpl; lia|]. split; [apply f3_reachable_fit|]. split; [apply f3_quiescent|].
-  destruct k.
-  all: split; [reflexivity|]; split; [reflexivity|]; split; [reflexivity|]; split; [reflexivity|];
-       split; [reflexivity|]; split; [reflexivity|].
-  all: split; [intros p [->| ->]; split; try reflexivity; simpl; auto|].
-  all: split; [intros H; destruct (H 3%nat (PLeftCtx 1) eq_refl) as [r E]; discriminate|].
-  all: split; [intros p sz; reflexivity|]; split; reflexivity.
-Qed.
-
-Lemma no_lost_wakeup_statement_refuted_l :
-  forall k, exists c, kind c = k /\ 0 < cap c /\ ~ no_lost_wakeup_statement c.
-Proof.
-  intros k. destruct (no_lost_wakeup_refuted_l k) as (c & s & K & C & R & Q & _ & _ & _ & _ & _ & _ & _ & N & _).
-  exists c. split; [exact K|]. split; [exact C|]. intros H. apply N. apply H; [|exact Q].
-  destruct R as [ls [F E]]. exists ls. split; [|exact E]. eapply Forall_impl; [|exact F]. intros a [X _]. exact X.
+  intros k. cbv zeta.
+  split; [destruct k; vm_compute; reflexivity|]. split.
+  { exists f3_trace. split; [unfold f3_trace; repeat constructor; simpl; intros; lia|destruct k; vm_compute; reflexivity]. }
+  split.
+  { intros l Hi. destruct k; destruct l; try discriminate Hi; try (vm_compute; reflexivity);
+      try (destruct p as [|[|[|[|[|p]]]]]; vm_compute; reflexivity);
+      try (destruct id as [|[|[|[|[|id]]]]]; vm_compute; reflexivity);
+      try (destruct k as [|[|[|[|[|k]]]]]; vm_compute; reflexivity). }
+  split.
+  { intros p v. destruct k; destruct p as [|[|[|[|[|p]]]]]; vm_compute; intros H; inversion H; eauto. }
+  destruct k; vm_compute; repeat split; reflexivity.
 Qed.
 
 (* ---- REPAIRED finding S1 (fix f7a3004ea): the former witnesses, replayed on the repaired code ------------------
@@ -83,7 +61,7 @@ Definition s1b_trace : list label :=
 
 Lemma oversized_no_longer_steals_witness_l :
   let s := final s1b_cfg s1b_trace in
-  run s1b_cfg init s1b_trace = Some s /\ quiescent s1b_cfg s /\ lock s = Free /\ all_returned s /\
+  run s1b_cfg init s1b_trace = Some s /\ quiescent s1b_cfg s /\ all_returned s /\
   pget 2%nat (prods s) = Some (PRet RTooLarge) /\ pget 1%nat (prods s) = Some (PRet ROk) /\
   hand s = [0; 1]%nat /\ size s = 0 /\ waiting s = 0 /\ tok s = false.
 Proof.
@@ -92,7 +70,7 @@ Proof.
       try (destruct p as [|[|[|p]]]; vm_compute; reflexivity);
       try (destruct id as [|[|[|id]]]; vm_compute; reflexivity);
       try (destruct k as [|[|[|k]]]; vm_compute; reflexivity). }
-  split; [vm_compute; reflexivity|]. split.
+  split.
   { intros p v. destruct p as [|[|[|p]]]; vm_compute; intros H; inversion H; eauto. }
   vm_compute. repeat split; reflexivity.
 Qed.
@@ -120,7 +98,7 @@ Definition fw_trace : list label :=
 
 Lemma faulty_waiter_passes_wakeup_witness_l :
   exists s, run fw_cfg init fw_trace = Some s /\ reachable_fit fw_cfg s /\
-    quiescent fw_cfg s /\ lock s = Free /\ all_returned s /\ size s = 0 /\ tok s = false /\ waiting s = 0 /\
+    quiescent fw_cfg s /\ all_returned s /\ size s = 0 /\ tok s = false /\ waiting s = 0 /\ sigs s = 0 /\
     acc s = [0; 3]%nat /\ hand s = [0; 3]%nat /\
     pget 1%nat (prods s) = Some (PRet (RErr c_marshal)) /\ pget 2%nat (prods s) = Some (PRet (RErr c_storeerr)) /\
     pget 3%nat (prods s) = Some (PRet ROk).
@@ -133,7 +111,7 @@ Proof.
       try (destruct p as [|[|[|[|p]]]]; vm_compute; reflexivity);
       try (destruct id as [|[|[|[|id]]]]; vm_compute; reflexivity);
       try (destruct k as [|[|[|[|k]]]]; vm_compute; reflexivity). }
-  split; [vm_compute; reflexivity|]. split.
+  split.
   { intros p v. destruct p as [|[|[|[|p]]]]; vm_compute; intros H; inversion H; eauto. }
   vm_compute. repeat split; reflexivity.
 Qed.
